@@ -462,7 +462,7 @@ func (k *call) symDec(api string) {
 // ------------------------------------------------------------------ RSA
 
 var rsaEncModes = []string{"ok", "toolong", "wrongkeykind"}
-var rsaDecModes = []string{"ok", "tamper", "badlabel", "wrongkeykind"}
+var rsaDecModes = []string{"ok", "tamper", "badlabel", "wrongkeykind", "shortct", "longct", "emptyct"}
 
 func (k *call) rsaEnc(api string) {
 	c := k.c
@@ -520,6 +520,14 @@ func (k *call) rsaDec(api string) {
 		labelB = append(labelB, 0x55)
 	case "wrongkeykind":
 		key, reached = fixedJWK(kn+".pub"), false
+	case "shortct":
+		// shorter than the modulus (a producer that serialises the integer minimally drops leading zero bytes; or a
+		// truncated input): whatever the outcome, the buffer and the capacity behind it are the caller's
+		ctB = ctB[1+int(c.Seed>>8)%7:]
+	case "longct":
+		ctB = append([]byte{0}, ctB...)
+	case "emptyct":
+		ctB = ctB[:0]
 	}
 	m := k.layout(plain("ciphertext", ctB), plain("associatedData", labelB))
 	ct, label := m[0], m[1]
